@@ -1,6 +1,7 @@
 /*
  * White-box tie for coq/Files/NumFmtModel.v: #includes vnadata_save.c to reach the static
  * print_value.  Input lines: PRECISION PLUS PAD VALUE (VALUE read by strtod).  Output per line:
+ * PLUS = 2: the angle text at maximum precision, fprintf("%+a") (used by the saver-model tie).
  *   E <text of sprintf("%.*e", precision - 1, value)> | <bytes print_value wrote, in hex>
  */
 #include "vnadata_save.c"
@@ -17,7 +18,10 @@ int main(void)
 	FILE *fp = open_memstream(&buf, &len);
 	char ebuf[1200];
 
-	print_value(fp, precision, plus != 0, pad != 0, value);
+	if (plus == 2)
+	    fprintf(fp, "%+a", value);
+	else
+	    print_value(fp, precision, plus != 0, pad != 0, value);
 	fclose(fp);
 	snprintf(ebuf, sizeof(ebuf), "%.*e", (precision < 1 ? 1 : precision) - 1, value);
 	printf("E %s |", ebuf);
